@@ -36,8 +36,10 @@ RULE = (
     "the argument, ':' axis, partial reduction of a 2-d output), optional tuple output and renames; expected "
     "outcome = all edges ref-compatible (source wrapped in Array[.] on reduced edges) <=> construction succeeds, "
     "else TypeError; with validate_type_annotations=False construction always succeeds. A mismatch that is exactly "
-    "explained by one of the modelled deviations (tuple zip truncation, swapped arguments for a required-only "
-    "Annotated) gets that deviation's own bucket. Non-trivial = pair whose two sides both have depth >= 2 or that "
+    "explained by a smallest set of modelled deviations (DEV_NAMES: tuple zip truncation, swapped arguments for a "
+    "required-only Annotated, Annotated[union] source not split, constrained-TypeVar miss falling through, both-"
+    "Annotated primaries compared out of context) is reported once per deviation in that deviation's own DEV-* bucket; "
+    "anything else lands in compat-mismatch-* / law-*-violated / pipeline-* buckets. Non-trivial = pair whose two sides both have depth >= 2 or that "
     "involves Union/Annotated/Array/TypeVar; for pipelines, a pipeline with an edge through a reduction; distinct "
     "by sha1 of the recipe."
 )
@@ -54,7 +56,7 @@ ASSUMPTIONS = [
     "pipefunc deliberately does not wrap those (tests/map/test_map.py::test_return_2d_from_step pins it) while the property text says 'Array of its element type' -- undetermined, excluded",
     "all MapSpecs are user-written and every output index occurs among the inputs (no auto-generated MapSpecs, no internal shapes: pipefunc documents that it skips the check there)",
     "a multi-output function is annotated with tuple[...] of exactly as many members as outputs, or not at all",
-    "the deviation models (zip truncation, required-only-Annotated swap) are used only to name the bucket of a mismatch, never to accept one",
+    "the deviation models (devmodel/DEV_NAMES) are used only to name the bucket of a mismatch, never to accept one; devmodel with no deviation switched on is asserted equal to ref",
 ]
 
 PY = {"int": int, "bool": bool, "float": float, "str": str, "bytes": bytes, "none": type(None)}
@@ -138,7 +140,7 @@ def children(r):
 
 def depth(r) -> int:
     ch = children(r)
-    return 0 if not ch and r["k"] != "typevar" else 1 + max([depth(c) for c in ch], default=0)
+    return 0 if not ch else 1 + max(depth(c) for c in ch)  # an unconstrained TypeVar is a leaf
 
 
 def kinds(r) -> set:
@@ -655,7 +657,9 @@ def related_pair(draw):
 
 
 def pair_strategy():
-    indep = st.fixed_dictionaries({"a": st.one_of(ty(3, False), st.just(NOANN)), "b": st.one_of(ty(3, True), st.just(NOANN))})
+    indep = st.fixed_dictionaries(
+        {"a": st.one_of(*[ty(3, False)] * 9, st.just(NOANN)), "b": st.one_of(*[ty(3, True)] * 9, st.just(NOANN))}
+    )
     return st.one_of(related_pair(), related_pair(), related_pair(), indep)
 
 
@@ -848,18 +852,18 @@ def pipeline_case(draw):
         if hms:
             h["mapspec"] = hms
         funcs.append(h)
-    return {"mode": mode, "funcs": funcs, "validate": draw(st.integers(0, 4)) != 0}
+    return {"mode": mode, "funcs": funcs, "validate": draw(st.sampled_from([True, True, True, True, False]))}
 
 
 def campaigns(tier):
     cs = [
-        Campaign("pairs", body_pair, pair_strategy(), quick=40000, thorough=1500000,
+        Campaign("pairs", body_pair, pair_strategy(), quick=16000, thorough=600000,
                  describe="is_type_compatible(A,B) == ref(A,B) on independent and related pairs, depth <= 3"),
-        Campaign("laws", body_laws, laws_case(), quick=8000, thorough=300000,
+        Campaign("laws", body_laws, laws_case(), quick=5000, thorough=150000,
                  describe="reflexivity, union introduction/elimination, covariance, Annotated transparency (implementation only)"),
         Campaign("depth1", body_pair, enumerate=enum_depth1, quick=0, thorough=0, exhaustive=True,
                  describe="all ordered pairs of the depth-1 grammar over 8 leaves (3-tuples over int/bool/str)"),
-        Campaign("pipelines", body_pipeline, pipeline_case(), quick=6000, thorough=200000,
+        Campaign("pipelines", body_pipeline, pipeline_case(), quick=5000, thorough=150000,
                  describe="2-3 function pipelines: direct / element-wise / reductions; TypeError iff an incompatible edge"),
     ]  # fmt: skip
     if tier == "thorough":
